@@ -153,6 +153,12 @@ def check_c05(case, r):
         for vid, vs in tr["vehicles"].items():
             if vs["cs"] is not None:
                 by_cs.setdefault(vs["cs"], []).append(vid)
+        if t == 0:
+            for k, c in tr["css"].items():
+                want = float(comp["charging_stations"][k]["max_power"]) * conc
+                if k in comp["charging_stations"] and c["max_power"] != want:
+                    v.append(("concurrency", "C05:station_maximum_not_concurrency_scaled",
+                              "%s: strategy uses %r, CONCURRENCY * rating = %r" % (k, c["max_power"], want)))
         for gid, g in tr["gcs"].items():
             for k, load in g["loads"]:
                 if k not in cs_keys:
